@@ -199,7 +199,10 @@ def _expression_as_string(expression: list[TokenT]) -> str:
         else:
             buf.append(f" {token}")
 
-    return "".join(buf).strip()
+    # Only the separating space added above is removed. `str.strip()` would also
+    # remove Unicode whitespace that is part of the first or last token (a word
+    # or path segment may contain U+00A0 or U+2028, for example).
+    return "".join(buf).strip(" ")
 
 
 def _tag_as_line_statement(markup: TagToken | CommentToken) -> str:
